@@ -27,11 +27,29 @@ func RealLength(s string) int {
 // accounting for any ANSI escapes/color codes, and tabulations replaced with 4 spaces.
 func LineSpan(line []rune, idx, indent int) (x, y int) {
 	termWidth := term.GetWidth()
-	lineLen := RealLength(string(line))
-	lineLen += indent
+	text := strings.ReplaceAll(color.Strip(string(line)), "\t", "     ")
 
-	cursorY := lineLen / termWidth
-	cursorX := lineLen % termWidth
+	// Walk the grapheme clusters: one that does not fit in what is left
+	// of a row (a double-width character in the last column) is wrapped
+	// whole by the terminal, which leaves that column empty.
+	cursorX, cursorY := indent, 0
+	state := -1
+
+	for len(text) > 0 {
+		var width int
+
+		_, text, width, state = uniseg.FirstGraphemeClusterInString(text, state)
+
+		if cursorX+width > termWidth && cursorX > 0 {
+			cursorY++
+			cursorX = 0
+		}
+
+		cursorX += width
+	}
+
+	cursorY += cursorX / termWidth
+	cursorX %= termWidth
 
 	// Empty lines are still considered a line.
 	if idx != 0 {
